@@ -114,6 +114,24 @@ Deleted(small, big, i, j, acc) ==
 
 FiredPos(after, before) == IF IsSubseq(after, before, 1, 1) THEN Deleted(after, before, Len(after), Len(before), <<>>) ELSE <<>>
 
+\* ---- an independent account of the plan: what was appended and neither removed, fired nor wiped (never re-synchronised from views)
+RECURSIVE RemoveFirst(_, _, _)
+RemoveFirst(seq, v, i) == IF i > Len(seq) THEN seq ELSE IF seq[i] = v THEN RemoveAt(seq, i) ELSE RemoveFirst(seq, v, i + 1)
+RECURSIVE RemoveEach(_, _, _)
+RemoveEach(seq, vals, i) == IF i > Len(vals) THEN seq ELSE RemoveEach(RemoveFirst(seq, vals[i], 1), vals, i + 1)
+HasOD(seq, v) == \E q \in 1 .. Len(seq) : seq[q][1] = v[1] /\ seq[q][2] = v[2]
+HasExact(seq, v) == \E q \in 1 .. Len(seq) : seq[q] = v
+RECURSIVE PlanxAfter(_, _, _, _)
+PlanxAfter(px, pl, acts, i) ==
+    IF i > Len(acts) THEN px
+    ELSE LET a == acts[i] IN
+         PlanxAfter(CASE a.k = "PC" /\ a.r = 1 -> Append(px, <<a.a, a.b, 0>>)
+                      [] a.k = "PW" /\ a.r = 1 -> Append(px, <<a.a, a.b, a.p>>)
+                      [] a.k = "PX"            -> <<>>
+                      [] a.k = "PR" /\ a.r = 1 /\ a.a < Len(pl) -> RemoveFirst(px, pl[a.a + 1], 1)
+                      [] OTHER -> px,
+                    PlanAfter(pl, <<a>>, 1), acts, i + 1)
+
 \* length of the maximal prefix of plan pl whose tasks all have origin a
 RECURSIVE PrefixLen(_, _, _)
 PrefixLen(pl, a, i) == IF i > Len(pl) \/ pl[i][1] # a THEN i - 1 ELSE PrefixLen(pl, a, i + 1)
@@ -137,6 +155,7 @@ TkInit == [
     dm |-> 0, ds |-> NONE, dpos |-> 0, dseen |-> {},    \* current delivery, number of sub-deliveries so far and which ones
     lastacts |-> <<>>,                                  \* acts of the previous callback
     lastreq |-> NoT,                                    \* the most recent request (re-synchronised from every view)
+    planx |-> <<>>,                                     \* tasks appended and neither removed, fired nor wiped (from actions only)
     inround |-> FALSE, rpend |-> NoT, rcancel |-> FALSE, rfirst |-> FALSE,
     surv |-> NoT, passed |-> {}, rounds |-> 0,
     planv |-> <<>>, succ |-> {}, fail |-> {}, planExists |-> FALSE,
@@ -182,7 +201,7 @@ TkCall(tk, e) ==
           [] e.op = "succeed" -> [base EXCEPT !.succ = @ \cup {e.a}]
           [] e.op = "fail"    -> [base EXCEPT !.fail = @ \cup {e.a}]
           [] e.op = "attach"  -> [base EXCEPT !.logger = e.a # 0]
-          [] e.op = "load"    -> [base EXCEPT !.lastreq = NoT, !.planExists = FALSE, !.succ = {}, !.fail = {}, !.planv = <<>>]
+          [] e.op = "load"    -> [base EXCEPT !.lastreq = NoT, !.planExists = FALSE, !.succ = {}, !.fail = {}, !.planv = <<>>, !.planx = <<>>]
           [] e.op \in {"exit", "dtor"} -> [base EXCEPT !.lastreq = NoT]
           [] OTHER -> base
 
@@ -214,7 +233,9 @@ TkCb(tk, e) ==
                 ELSE t5
         cleared == IsPlanCb(e.m) /\ DEnd(e)                                  \* plan().clear() follows the callback
         exitClears == IF e.m = M_EXIT /\ e.s # NONE /\ DEnd(e) THEN {e.s} ELSE {}
+        pxs  == IF StepNow(tk, e) /\ ~IsPlanCb(e.m) THEN RemoveEach(tk.planx, t3.fired, 1) ELSE tk.planx
         t7   == [t6 EXCEPT !.planv = IF cleared THEN <<>> ELSE PlanAfter(planNow, e.acts, 1),
+                           !.planx = IF cleared THEN <<>> ELSE PlanxAfter(pxs, planNow, e.acts, 1),
                            !.succ = IF cleared THEN {} ELSE FlagsAfter(@, "S", e.sid, e.acts, 1) \ exitClears,
                            !.fail = IF cleared THEN {} ELSE FlagsAfter(@, "F", e.sid, e.acts, 1) \ exitClears,
                            !.sawS = @ \cup Targets(e.acts, "S", e.sid),
@@ -237,7 +258,13 @@ TkRet(tk, e) ==
                                !.succ = @ \ {tk.planv[pos[q]][1] : q \in 1 .. Len(pos)}]
                ELSE t1
         wipe == tk.op \in {"exit", "dtor"} \/ e.act = NONE
-    IN  [t2 EXCEPT !.incall = FALSE, !.obs = [act |-> e.act, ia |-> e.ia, on |-> e.on, prev |-> e.prev, plan |-> e.plan],
+        px1  == IF StepNow(tk, e) THEN RemoveEach(tk.planx, t2.fired, 1) ELSE tk.planx
+        px2  == CASE wipe \/ tk.op = "px" -> <<>>
+                  [] tk.op = "pc" /\ e.r = 1 -> Append(px1, <<tk.oa, tk.ob, 0>>)
+                  [] tk.op = "pw" /\ e.r = 1 -> Append(px1, <<tk.oa, tk.ob, tk.opp>>)
+                  [] tk.op = "pr" /\ e.r = 1 /\ tk.oa < Len(tk.planv) -> RemoveFirst(px1, tk.planv[tk.oa + 1], 1)
+                  [] OTHER -> px1
+    IN  [t2 EXCEPT !.incall = FALSE, !.planx = px2, !.obs = [act |-> e.act, ia |-> e.ia, on |-> e.on, prev |-> e.prev, plan |-> e.plan],
                    !.planv = e.plan, !.dpos = 0, !.lastacts = <<>>,
                    !.alive = IF tk.op = "dtor" THEN FALSE ELSE @,
                    !.ent = IF tk.op = "dtor" THEN NONE ELSE @,
@@ -357,6 +384,11 @@ CheckCb(tk, e, tk2) ==
                       [] a.k = "F" -> <<<<"s", Target(a, e.sid), 1>>>>
                       [] OTHER -> <<>>,
            "C16", "an action inside a callback did not produce exactly its log record")
+    \* ---- tasks that fire are tasks that were appended (with the payload they were appended with)
+    \cup V(step /\ ~IsPlanCb(e.m) => \A q \in 1 .. Len(tk2.fired) : HasOD(tk.planx, tk2.fired[q]),
+           "C08", "a task fired that is not in the plan: never appended, already removed or already fired")
+    \cup V(step /\ ~IsPlanCb(e.m) => \A q \in 1 .. Len(tk2.fired) : HasOD(tk.planx, tk2.fired[q]) => HasExact(tk.planx, tk2.fired[q]),
+           "C07", "a task fired with a payload other than the one it was appended with")
     \* ---- plan bookkeeping visible in every view
     \cup V0(PlanActsOK(pn, e.acts, 1), "C10", "append / remove result disagrees with the exact task capacity")
     \cup V0(e.pfl = 1, "C10", "the plan's iterators, first(), last() and emptiness test (mutable and const forms) do not describe one sequence")
@@ -528,6 +560,10 @@ CheckRet(tk, e, tk2) ==
     \cup V(proc \/ actv => e.act # NONE /\ e.ia = <<e.act>>, "C04", "processing did not end with exactly one active state")
     \cup V(proc => e.act = a0 \/ \E t \in tk2.passed : t[2] = e.act, "C04", "the state active after processing is not among the requests that passed their guards")
     \cup V(actv => e.act = 0 \/ \E t \in tk2.passed : t # NoT /\ t[2] = e.act, "C04", "the state active after activation is neither the initial state nor a redirect that passed its guards")
+    \cup V(step => \A q \in 1 .. Len(tk2.fired) : HasOD(tk.planx, tk2.fired[q]),
+           "C08", "a task fired that is not in the plan: never appended, already removed or already fired")
+    \cup V(step => \A q \in 1 .. Len(tk2.fired) : HasOD(tk.planx, tk2.fired[q]) => HasExact(tk.planx, tk2.fired[q]),
+           "C07", "a task fired with a payload other than the one it was appended with")
     \* ---- C08 / C09 when the plan step was the last thing visible
     \cup V(step /\ HasHead => IsSubseq(e.plan, pb, 1, 1), "C08", "tasks that did not fire were reordered or replaced in the plan step")
     \cup V(step /\ HasHead => \A q \in 1 .. Len(pos) : pos[q] <= PrefixLen(pb, a0, 1) /\ pb[pos[q]][1] \in tk.succ,
